@@ -1565,8 +1565,10 @@ namespace
                 s->destroy_zombie(i);
                 ++n_zombie_destroyed;
                 (void)blocks;
-                if (H.leak != leak0 && has(O_LEAK))
-                    fail("zombie-leak", "a moved-from object reported a leak");
+                // (the leak counter only moves with traits-level calls and has to move with the memory:
+                // also part of "the moved-from object is harmless", C12)
+                if (H.leak != leak0 && (has(O_LEAK) || has(O_MOVE)))
+                    fail("zombie-leak", "a moved-from object reported a leak when it was destroyed");
             }
             sweep("after moved-from object was destroyed/assigned");
         }
@@ -2242,6 +2244,35 @@ namespace
                 }
                 if (mt && op.a % 4 != 3)
                     (void)!write(fds[1], "MT\n", 3);
+                // a second low-level allocator in the same process ("their process-wide net", each its own)
+                unsigned second = (op.a / 4) % 4;
+                if ((op.b / 6) % 2 && second != op.a % 4)
+                {
+                    unsigned       leave2 = (op.c / 3) % 3;
+                    std::ptrdiff_t net2   = 0;
+                    const char*    name2  = "";
+                    switch (second)
+                    {
+                    case 0:
+                        net2  = ll_history<fm::heap_allocator>(op.a + 5, op.b + 3, leave2);
+                        name2 = "heap_allocator";
+                        break;
+                    case 1:
+                        net2  = ll_history<fm::malloc_allocator>(op.a + 5, op.b + 3, leave2);
+                        name2 = "malloc_allocator";
+                        break;
+                    case 2:
+                        net2  = ll_history<fm::new_allocator>(op.a + 5, op.b + 3, leave2);
+                        name2 = "new_allocator";
+                        break;
+                    default:
+                        net2  = ll_history<fm::virtual_memory_allocator>(op.a + 5, op.b + 3, leave2);
+                        name2 = "virtual_memory_allocator";
+                    }
+                    char b2[200];
+                    int  n2 = std::snprintf(b2, sizeof b2, "EXPECT2 %s %ld %u\n", name2, long(net2), leave2);
+                    (void)!write(fds[1], b2, size_t(n2));
+                }
                 char buf[200];
                 int  n = std::snprintf(buf, sizeof buf, "EXPECT %s %ld %u\n", name, long(net), leave);
                 (void)!write(fds[1], buf, size_t(n));
@@ -2261,38 +2292,76 @@ namespace
                 fail("ll-exit-crash", "child with a low-level allocator history died (status " + std::to_string(status) + ")");
                 return;
             }
-            char  name[64] = "";
-            long  net      = 0;
-            unsigned leave = 0;
-            auto  pos      = out.find("EXPECT ");
-            if (pos == std::string::npos || std::sscanf(out.c_str() + pos, "EXPECT %63s %ld %u", name, &net, &leave) != 3)
-                return;
-            unsigned reports = 0;
-            long     amount  = 0;
-            size_t   q       = 0;
-            while ((q = out.find("LEAK ", q)) != std::string::npos)
+            struct Expect
             {
-                char nm[160];
-                long am = 0;
-                if (std::sscanf(out.c_str() + q, "LEAK %159s %ld", nm, &am) == 2 && std::string(nm).find(name) != std::string::npos)
-                {
-                    ++reports;
-                    amount = am;
-                }
-                else if (std::sscanf(out.c_str() + q, "LEAK %159s %ld", nm, &am) == 2)
-                    fail("ll-exit-foreign", std::string("an allocator that was not used reported a leak at exit: ") + nm);
-                q += 5;
+                std::string name;
+                long        net;
+            };
+            std::vector<Expect> exps;
+            for (const char* key : {"EXPECT ", "EXPECT2 "})
+            {
+                auto pos = out.find(key);
+                char nm[64] = "";
+                long nt = 0;
+                unsigned lv = 0;
+                if (pos != std::string::npos
+                    && std::sscanf(out.c_str() + pos + std::strlen(key), "%63s %ld %u", nm, &nt, &lv) == 3)
+                    exps.push_back({nm, nt});
             }
-            if (net == 0 && reports != 0)
-                fail("ll-exit-spurious", std::string(name) + " reported " + std::to_string(amount) + " at exit although balanced");
-            else if (net != 0 && reports != 1)
-                fail("ll-exit-count", std::string(name) + ": net " + std::to_string(net) + " at exit but "
-                                          + std::to_string(reports) + " reports");
-            else if (net != 0 && fence_size == 0 && amount != net)
-                fail("ll-exit-amount", std::string(name) + ": net " + std::to_string(net) + " but reported "
-                                           + std::to_string(amount));
-            else if (net != 0 && fence_size != 0 && amount < net)
-                fail("ll-exit-amount", std::string(name) + ": reported less than the net");
+            if (exps.empty())
+                return;
+            long net = 0;
+            for (auto& e : exps)
+            {
+                net += e.net;
+                unsigned reports = 0;
+                long     amount  = 0;
+                size_t   q       = 0;
+                while ((q = out.find("LEAK ", q)) != std::string::npos)
+                {
+                    char nm[160];
+                    long am = 0;
+                    if (std::sscanf(out.c_str() + q, "LEAK %159s %ld", nm, &am) == 2
+                        && std::string(nm).find(e.name) != std::string::npos)
+                    {
+                        ++reports;
+                        amount = am;
+                    }
+                    q += 5;
+                }
+                const std::string& name = e.name;
+                if (e.net == 0 && reports != 0)
+                    fail("ll-exit-spurious", name + " reported " + std::to_string(amount) + " at exit although balanced");
+                else if (e.net != 0 && reports != 1)
+                    fail("ll-exit-count", name + ": net " + std::to_string(e.net) + " at exit but "
+                                              + std::to_string(reports) + " reports"
+                                              + (exps.size() > 1 ? " (two low-level allocators were used in the process)" : ""));
+                else if (e.net != 0 && fence_size == 0 && amount != e.net)
+                    fail("ll-exit-amount", name + ": net " + std::to_string(e.net) + " but reported "
+                                               + std::to_string(amount));
+                else if (e.net != 0 && fence_size != 0 && amount < e.net)
+                    fail("ll-exit-amount", name + ": reported less than the net");
+            }
+            {
+                // a report from an allocator that was not used at all
+                size_t q = 0;
+                while ((q = out.find("LEAK ", q)) != std::string::npos)
+                {
+                    char nm[160];
+                    long am = 0;
+                    if (std::sscanf(out.c_str() + q, "LEAK %159s %ld", nm, &am) == 2)
+                    {
+                        bool known_name = false;
+                        for (auto& e : exps)
+                            known_name |= std::string(nm).find(e.name) != std::string::npos;
+                        if (!known_name)
+                            fail("ll-exit-foreign", std::string("an allocator that was not used reported a leak at exit: ") + nm);
+                    }
+                    q += 5;
+                }
+            }
+            if (exps.size() > 1)
+                ci.classes.insert("ll-exit-two-allocators");
             ++n_ll_exit;
             ci.classes.insert(net ? "ll-exit-leak" : "ll-exit-balanced");
             if (out.find("MT\n") != std::string::npos)
@@ -2928,7 +2997,7 @@ namespace
             if (has(O_SIBLING))
             {
                 make_sibling(cand, e);
-                adjacent_blocks = P(1) % Slab::n_policies == Slab::adjacent;
+                adjacent_blocks = Slab::get().policy() == Slab::adjacent;
             }
             if (s->fam == F_ITER && has(O_ITER))
             {
